@@ -19,16 +19,18 @@ structure WFTable (sc : Schema) (t : Table) : Prop where
   uniq : PkUnique sc t
   shape : ∀ r ∈ t, r.length = sc.ncols
 
-/-- UPDATE does not assign primary-key columns (the proxy rejects that: `pkChanged`) and only names
-    existing columns; INSERT gives one expression per column -/
+/-- UPDATE (also with ORDER BY … LIMIT) does not assign primary-key columns (the proxy rejects that:
+    `pkChanged`) and only names existing columns; INSERT gives one expression per column; INSERT … ON
+    DUPLICATE KEY UPDATE both -/
 def WFStmt (sc : Schema) : Stmt → Prop
   | .update sets _ => ∀ p ∈ sets, p.1 < sc.ncols ∧ p.1 ∉ sc.pk
   | .delete _ => True
   | .insert rows => ∀ es ∈ rows, es.length = sc.ncols
   | .failing _ => True
-  | .upsert _ _ => False     -- INSERT … ON DUPLICATE KEY UPDATE: not covered by the restore theorems (correspondence only)
-  | .updateLim _ _ _ _ => False   -- ORDER BY / LIMIT forms: correspondence only
-  | .deleteLim _ _ _ => False
+  | .upsert rows assign =>    -- INSERT … ON DUPLICATE KEY UPDATE: full rows, no key column assigned
+    (∀ es ∈ rows, es.length = sc.ncols) ∧ ∀ p ∈ assign, p.1 < sc.ncols ∧ p.1 ∉ sc.pk
+  | .updateLim sets _ _ _ => ∀ p ∈ sets, p.1 < sc.ncols ∧ p.1 ∉ sc.pk   -- … ORDER BY … LIMIT n
+  | .deleteLim _ _ _ => True
 
 theorem wfStmt_iff (sc : Schema) (s : Stmt) : WFStmt sc s ↔ StmtWF sc s := by
   cases s <;> exact Iff.rfl
@@ -37,19 +39,43 @@ theorem wfStmt_iff (sc : Schema) (s : Stmt) : WFStmt sc s ↔ StmtWF sc s := by
 
 /-- Phase one of one statement followed by the compensation of its undo item gives back the table
     (as a set of rows), under every configuration, also when the table has been permuted meanwhile.
-    A statement that touched no row changes nothing and leaves an empty item (which is not logged). -/
+    A statement that touched no row changes nothing and leaves an empty item (which is not logged).
+    (`hx`: the statement recorded no further item — true of every statement but an INSERT … ON
+    DUPLICATE KEY UPDATE that both updated and inserted rows, see `C01_stmt_restore_extra`.) -/
 theorem C01_stmt_restore (sc : Schema) (cfg : Cfg) (t : Table) (args : Args) (s : Stmt)
     (t' : Table) (item : Item) (keys : List Key)
     (hsc : WFSchema sc) (ht : WFTable sc t) (hs : WFStmt sc s)
-    (h : stmtPhase1 sc cfg t args s = .ok (t', item, keys)) :
+    (h : stmtPhase1 sc cfg t args s = .ok (t', item, keys))
+    (hx : extraItems sc t t' args s = []) :
     WFTable sc t' ∧
     (item.nonEmpty = false → t' = t) ∧
     (item.nonEmpty = true → ∀ u : Table, u.Perm t' →
       ∃ u' res, undoItem sc cfg u item = (u', res) ∧ (res = .done ∨ res = .skipped) ∧ u'.Perm t) := by
   have _ := hsc   -- (not needed: out-of-range key columns read as NULL consistently)
   obtain ⟨⟨h1, h2⟩, h3, h4⟩ :=
-    stmt_restore sc cfg t args s t' item keys ht.uniq ht.shape ((wfStmt_iff sc s).1 hs) h
+    stmt_restore sc cfg t args s t' item keys ht.uniq ht.shape ((wfStmt_iff sc s).1 hs) h hx
   exact ⟨⟨h1, h2⟩, h3, h4⟩
+
+/-- `hx` above holds for every statement that is not an INSERT … ON DUPLICATE KEY UPDATE -/
+theorem C01_extraItems_nil (sc : Schema) (t t' : Table) (args : Args) (s : Stmt)
+    (hs : ∀ rows assign, s ≠ .upsert rows assign) : extraItems sc t t' args s = [] :=
+  extraItems_of_not_upsert sc t t' args s hs
+
+/-- Every statement, including the INSERT … ON DUPLICATE KEY UPDATE that updated some rows and
+    inserted others: the items it contributes to the branch (its main item if not empty, then
+    `extraItems`), compensated last first as the rollback does, give back the table. -/
+theorem C01_stmt_restore_extra (sc : Schema) (cfg : Cfg) (t : Table) (args : Args) (s : Stmt)
+    (t' : Table) (item : Item) (keys : List Key)
+    (hsc : WFSchema sc) (ht : WFTable sc t) (hs : WFStmt sc s)
+    (h : stmtPhase1 sc cfg t args s = .ok (t', item, keys)) :
+    WFTable sc t' ∧
+    ∀ u : Table, u.Perm t' →
+      ∃ u', undoFold sc cfg u
+          ((if item.nonEmpty then [item] else []) ++ extraItems sc t t' args s).reverse = (u', true) ∧
+        u'.Perm t := by
+  have _ := hsc
+  have hX := stmt_restore_x sc cfg t args s t' item keys ht.uniq ht.shape ((wfStmt_iff sc s).1 hs) h
+  exact ⟨⟨hX.1.1, hX.1.2⟩, fun u hp => restoresX_fold hX u hp⟩
 
 /-! ### one branch (local transaction) -/
 
@@ -164,6 +190,25 @@ example : ∃ w, globalPhase1 sc1 ⟨true, true⟩ { t := t1 } [[(upd, [.int 2])
     w.t = [] ∧ w.branches.length = 2 ∧
     (rollbackAll sc1 ⟨true, true⟩ w).2 = true ∧ (rollbackAll sc1 ⟨true, true⟩ w).1.t = t1 := by
   refine ⟨_, rfl, ?_⟩
+  decide
+
+/-- UPDATE … ORDER BY c1 DESC LIMIT 1, then DELETE … ORDER BY c0 LIMIT 1, rolled back -/
+def updLim : Stmt := .updateLim [(1, .val (.lit (.int 0)))] .tt [(1, true)] 1
+def delLim : Stmt := .deleteLim .tt [(0, false)] 1
+example : WFStmt sc1 updLim ∧ WFStmt sc1 delLim := by simp [WFStmt, updLim, delLim, sc1]
+example : ∃ t' b, localPhase1 sc1 ⟨true, true⟩ t1 [(updLim, []), (delLim, [])] = .ok (t', b) ∧
+    t' = [[.int 2, .int 0]] ∧ b.items.length = 2 ∧
+    (undoBranch sc1 ⟨true, true⟩ t' b) = ([[.int 2, .int 20], [.int 1, .int 10]], true) := by
+  refine ⟨_, _, rfl, ?_⟩
+  decide
+
+/-- INSERT … ON DUPLICATE KEY UPDATE that updates key 2 and inserts key 3: two items (UPDATE, INSERT) -/
+def ups : Stmt := .upsert [[.lit (.int 2), .lit (.int 21)], [.lit (.int 3), .lit (.int 30)]] [(1, .values)]
+example : WFStmt sc1 ups := by simp [WFStmt, ups, sc1]
+example : ∃ t' b, localPhase1 sc1 ⟨true, true⟩ t1 [(ups, [])] = .ok (t', b) ∧
+    t' = [[.int 1, .int 10], [.int 2, .int 21], [.int 3, .int 30]] ∧ b.items.map (·.kind) = [.update, .insert] ∧
+    (undoBranch sc1 ⟨true, true⟩ t' b) = (t1, true) := by
+  refine ⟨_, _, rfl, ?_⟩
   decide
 
 end Seata.Props.C01
